@@ -44,6 +44,15 @@ OBJECT_CONFIGS = [
     (1, "optimize", {"api": "fold"}),
     (1, "optimize", {"api": "inline"}),
     (1, "optimize", {"api": "remove_unused"}),
+    (1, "optimize", {"api": "proto", "opts": {"input_size_limit": 0}}),
+    (1, "optimize", {"api": "ir", "opts": {"output_size_limit": 1}}),
+    (1, "optimize", {"api": "ir", "opts": {"input_size_limit": 4, "output_size_limit": 1000000}}),
+    (1, "optimize", {"api": "fold", "opts": {"onnx_shape_inference": False}}),
+    (1, "optimize", {"api": "fold", "opts": {"input_size_limit": 4}}),
+    (1, "optimize", {"api": "positional", "args": [1]}),
+    (1, "optimize", {"api": "positional", "args": [3]}),
+    (1, "optimize", {"api": "ir_should_fold", "answer": "alternate"}),
+    (1, "optimize", {"api": "ir_should_fold", "answer": "never"}),
     (1, "optimize", {"api": "ir_should_fold", "raise_at": 1}),
     (1, "optimize", {"api": "ir_should_fold", "raise_at": 3}),
     (4, "rewrite", {"rules": "default", "api": "pass"}),
@@ -84,7 +93,8 @@ def object_key(op: dict) -> str:
     """Which long-lived object / entry point an operation goes through."""
     if op["kind"] == "translate":
         return "translate"
-    return jdump([op["kind"], op.get("api"), op.get("rules"), op.get("opts"), op.get("target"), op.get("fallback")])
+    return jdump([op["kind"], op.get("api"), op.get("rules"), op.get("opts"), op.get("target"), op.get("fallback"), op.get("args"),
+                  op.get("answer")])
 
 
 def gen_targets(seed: int, tier: dict, pools) -> list[dict]:
